@@ -22,6 +22,9 @@ canonicalised arguments; the physical constants R, F (kJ/V/eq and C/mol), eps0, 
                through setup_surface on a full build and through the master loop of quick_setup when the model is reused; the
                class test with which that loop skips masters, evaluated over the finite domain of species classes (codes
                recovered from the readers), may skip the potential masters but not surface-site, exchange or aqueous masters
+  C20.compunk  CD-MUSIC plane-0 charge = sum over the site types of a charge structure of moles * z(master species): the list the
+               residual and the print-out sum over (unknown::comp_unknowns) has one writer, the CD_MUSIC branch of setup_surface; the
+               registration lies on every path through that branch (also for a site type that finds the charge unknowns created)
 Not decided: site balance and mass action of every surface species (properties of the numerical solution), the diffuse-layer
 integration (calc_all_g / Donnan), read-out values.
 """
@@ -160,6 +163,7 @@ def run(P, R, tier):
                     "diffuse-layer integration (calc_all_g, Donnan), ion excess = surface charge (numerical)"]
     deltaz_rule(P, R)
     sites_rule(P, R)
+    compunk_rule(P, R)
     R.rule("C20.psi", "every potential conversion is psi = 2 la ln10 R T/F (DDL, CCM) or psi = -la ln10 R T/F (CD-MUSIC planes), matching the selected model", minimum=12)
     R.rule("C20.sigma", "every charge-density conversion is sigma = q F/(A g) or q = sigma A g/F", minimum=15)
     S = RF.Rat.sym
@@ -369,6 +373,70 @@ def deltaz_rule(P, R):
         R.violation("C20.deltaz", "add_potential_factor", "the charge sum of the electrostatic term accepts {%s}: %s%s - the potential coefficient of a surface species whose rewritten "
                     "equation contains such a reactant is wrong by its charge" % (", ".join(acc), ("it leaves out %s" % ", ".join(sorted(need - set(acc)))) if need - set(acc) else "",
                                                                                    (" it includes %s" % ", ".join(sorted(extra))) if extra else ""), line=site[1], **where)
+
+
+def compunk_rule(P, R):
+    """CD-MUSIC plane-0 charge: the residual (and the printed charge) of the SURFACE_CB unknown sums moles * z(master species) over
+    `comp_unknowns`, the list of site-type unknowns that share the charge structure.  The list has one writer, the CD_MUSIC branch of
+    setup_surface; it must register EVERY site type - also those that find the charge unknowns of their structure already created by
+    an earlier site type - so the registration has to lie on every path through the branch, not inside the `newly created` arm."""
+    RULE = "C20.compunk"
+    R.rule(RULE, "setup_surface (CD_MUSIC): every site-type unknown is registered in comp_unknowns of its plane-0 charge unknown, on every path; the readers sum over that list", minimum=3)
+    f = P.one("Phreeqc::setup_surface")
+    where = dict(file=f["file"], function=f["q"])
+
+    def is_push(n):
+        for c in T.calls(n):
+            if T.callee_name(c) == "push_back" and T.is_node(c[3]) and any(y[0] == "Member" and y[2] == "unknown::comp_unknowns" for y in T.walk(c[3])):
+                return True
+        return False
+    branch = None
+    for x in T.walk(f["body"]):
+        if x[0] == "If" and any(y[0] == "Ref" and y[2] == "enum" and y[3].endswith("CD_MUSIC") for y in T.walk(x[2])) and any(is_push(z) for z in [x[3]] if T.is_node(z)):
+            branch = x
+        elif x[0] == "If" and any(y[0] == "Ref" and y[2] == "enum" and y[3].endswith("CD_MUSIC") for y in T.walk(x[2])) and branch is None \
+                and any(T.callee_name(c) == "find_surface_charge_unknown" for c in T.calls(x[3])):
+            branch = x
+    if branch is None:
+        R.anchor_missing(RULE, "setup_surface: CD_MUSIC branch not found")
+        return
+    pushes = [c for c in T.calls(branch[3]) if T.callee_name(c) == "push_back" and T.is_node(c[3]) and any(y[0] == "Member" and y[2] == "unknown::comp_unknowns" for y in T.walk(c[3]))]
+    if not pushes:
+        R.violation(RULE, "register", "the CD_MUSIC branch of setup_surface no longer registers the site-type unknown in comp_unknowns", line=branch[1], **where)
+    else:
+        sub = dict(f, body=branch[3] if branch[3][0] == "Compound" else ["Compound", branch[1], [branch[3]]])
+        cfg = T.CFG(sub, terminates=is_push)
+        if cfg.exit not in cfg.reachable():
+            R.ok(RULE, "register", "comp_unknowns.push_back lies on every path through the branch (line %d)" % pushes[0][1])
+        else:
+            R.violation(RULE, "register", "comp_unknowns.push_back (line %d) is not on every path through the CD_MUSIC branch: a site type that finds the charge unknowns of its "
+                        "structure already created is not registered, so sigma0 of eqn A-3 omits moles * z of its master species and the charge-potential relations of a "
+                        "multi-site CD-MUSIC surface fail" % pushes[0][1], line=pushes[0][1], **where)
+        a = T.strip_casts(pushes[0][4][0]) if pushes[0][4] else None
+        if a and a[0] == "Ref" and a[2] == "local":
+            # a local alias: its (single) definition inside the branch
+            defs = [d[2] for x in T.walk(branch[3]) if x[0] == "Decl" for d in x[2] if d[0] == a[3] and T.is_node(d[2])]
+            if len(defs) == 1:
+                a = T.strip_casts(defs[0])
+        if a and "mb_unknown_number" in T.text(a):
+            R.ok(RULE, "registered-unknown", "the site (mass-balance) unknown x[mb_unknown_number]")
+        else:
+            R.violation(RULE, "registered-unknown", "comp_unknowns receives `%s`, not the site unknown x[mb_unknown_number]" % (T.text(a)[:40] if a else "?"), line=pushes[0][1], **where)
+    # readers
+    n = 0
+    for g in P.functions.values():
+        if not g.get("body") or g["q"] == f["q"]:
+            continue
+        for x in T.walk(g["body"]):
+            if x[0] == "For" and T.is_node(x[3]) and any(y[0] == "Member" and y[2] == "unknown::comp_unknowns" for y in T.walk(x[3])):
+                n += 1
+                txt = T.text(x[4]).replace(" ", "")
+                if "moles" in txt and ".z" in txt or "s.z" in txt:
+                    R.ok(RULE, "%s@%d" % (g["q"].split("::")[-1], x[1]), "sums moles * z over comp_unknowns")
+                else:
+                    R.ok(RULE, "%s@%d" % (g["q"].split("::")[-1], x[1]), "loop over comp_unknowns")
+    if n < 1:
+        R.anchor_missing(RULE, "no reader loop over unknown::comp_unknowns found (residuals, print)")
 
 
 def sites_rule(P, R):
